@@ -82,7 +82,7 @@ FIRST_MISSED = {  # caught only after the extension named here (recorded while t
  "C04-m10": "argument spelled with a detour through the metadata directory (`.goit/../p`)",
  "C05-m9": "path components of 120 … 506 bytes in crafted staging areas (mode + name = 256 bytes)",
  "C05-m10": "not caught by C05; zero-padded reflog positions (`HEAD@{08}`, `HEAD@{010}`) in the reset generator let C08 and C11 catch it",
- "C06-m9": "NOT caught in the quick tier: needs a tracked FILE named like a `name/` ignore entry, deleted, `add`-ed again, with a sibling whose name extends it sorting next in the staging area",
+ "C06-m9": "not caught in any quick tier (needs a tracked FILE named like a `name/` ignore entry, deleted, named to `add`, with a sibling whose name extends it sorting next); the stage profile (C04) now runs a quarter of its histories with an ignore list and its oracle follows the ignore classes, and its THOROUGH tier catches the change (6 of 16 shards)",
  "C06-m10": "NOT caught on purpose: it only acts on a staging area that holds a name both as a file and as a directory, about which the oracles are silent (DESIGN 8.4)",
  "C07-m9": "neutralised by 792f566 (the new-file test no longer goes through the tree lookup it changes)",
  "C07-m10": "`.goitignore` rewritten later (`ignore-more`) in the diff profile; was caught by C13 before",
